@@ -18,7 +18,7 @@ pub fn set_route_seed(s: u64) {
     ROUTE.with(|r| r.set(s | 1));
 }
 
-fn route(n: usize) -> usize {
+pub(crate) fn route(n: usize) -> usize {
     ROUTE.with(|r| {
         let mut x = r.get();
         let v = vcore::prng::splitmix(&mut x);
